@@ -52,7 +52,7 @@ PARTIAL = ["C20_conforms is proved in the form 'validate never answers False and
            "C20_terminates is refuted for T{kids: array<T>} (C20_refuted_rec_array, finding F12); the positive part is C20_terminates_ranked"]
 
 IMPORTS = ("From Coq Require Import String.\n"
-           "From FA Require Import model.Base model.Value model.Schema model.Validate model.Harness model.Gen.\n"
+           "From FA Require Import model.Base model.Value model.Schema model.Validate model.Gen.\n"
            "Open Scope Z_scope.\n")
 
 SIG_F12 = "C20:gen_data:recursion-through-array-or-map:RecursionError"
@@ -725,6 +725,10 @@ def predicate(entry, schema_arg, vals, n_expected, check_container=True):
     return True, None, None
 
 
+KNOWN_LOGICAL = {"int-date", "int-time-millis", "long-time-micros", "long-timestamp-millis", "long-timestamp-micros",
+                 "long-local-timestamp-millis", "long-local-timestamp-micros", "string-uuid", "bytes-decimal", "fixed-decimal"}
+
+
 def features(entry):
     """coarse description of the schema for signatures"""
     txt = json.dumps(entry.raw)
@@ -738,7 +742,19 @@ def blame(entry, vals):
     def go(v, s):
         s2 = resolve(s, entry.named)
         if isinstance(s2, list):
-            return None if any(shape_ok(v, b, entry.named) for b in s2) else "union"
+            if any(shape_ok(v, b, entry.named) for b in s2):
+                return None
+            def kind(b):
+                b = resolve(b, entry.named)
+                return b if isinstance(b, str) else b["type"]
+            same = [b for b in s2 if (type(v) is dict and kind(b) in ("record", "error", "map")) or (type(v) is list and kind(b) == "array")
+                    or (type(v) is int and kind(b) in ("int", "long")) or (type(v) is str and kind(b) in ("string", "enum"))
+                    or (type(v) is bytes and kind(b) in ("bytes", "fixed"))]
+            for b in same:
+                r = go(v, b)
+                if r:
+                    return r
+            return "union"
         t = s2 if isinstance(s2, str) else s2["type"]
         if shape_ok(v, s2, entry.named):
             return None
@@ -758,7 +774,7 @@ def blame(entry, vals):
                     b = go(v[f["name"]], f["type"])
                     if b:
                         return b
-        return logical_of(s2) or t
+        return logical_of(s2) if logical_of(s2) in KNOWN_LOGICAL else t
     for v in vals:
         b = go(v, entry.parsed)
         if b:
@@ -775,7 +791,47 @@ def classify(entry, vals, symptom, why):
         # prepare_date (applied by _validate to every int-date candidate of a union) parses ANY str as an ISO date and raises
         return SIG_ISO
     b = blame(entry, vals) if symptom in ("value-not-of-the-type", "does-not-validate") else None
+    if symptom == "count":
+        return "C20:generate_many:count"
+    if b is None:
+        b = unreadable_leaf(entry, vals)
     return "C20:generate:%s:%s" % (symptom, b or features(entry))
+
+
+def leaves(v, s, named):
+    """(value, leaf schema) pairs of a generated value, following the union branch that admits the value"""
+    s = resolve(s, named)
+    if isinstance(s, list):
+        for b in s:
+            if shape_ok(v, b, named):
+                yield from leaves(v, b, named)
+                return
+        return
+    t = s if isinstance(s, str) else s["type"]
+    if t == "array" and type(v) is list:
+        for x in v:
+            yield from leaves(x, s["items"], named)
+    elif t == "map" and type(v) is dict:
+        for x in v.values():
+            yield from leaves(x, s["values"], named)
+    elif t in ("record", "error") and type(v) is dict:
+        for f in s["fields"]:
+            if f["name"] in v:
+                yield from leaves(v[f["name"]], f["type"], named)
+    else:
+        yield v, s
+
+
+def unreadable_leaf(entry, vals):
+    """the logical type of the first leaf whose stored value is outside its logical reader's domain"""
+    for v in vals:
+        for x, s in leaves(v, entry.parsed, entry.named):
+            if isinstance(s, dict) and logical_of(s):
+                try:
+                    logical_view(x, s)
+                except Exception:
+                    return logical_of(s)
+    return None
 
 
 # ------------------------------------------------------------------ cases
@@ -834,7 +890,7 @@ def evaluate(ctx, entry, case, st, vals, rec, mismatch, m, corr="corr:gen"):
             ctx.violation(corr, cj, impl=t[:1500], model=(m or "")[:1500], signature=classify(entry, vals, symptom, why),
                           found_input=True, detail=why)
         elif t != m:
-            ctx.violation(corr, cj, impl=t[:1500], model=(m or "")[:1500], signature="C20:model-differs:" + feat, found_input=False,
+            ctx.violation(corr, cj, impl=t[:1500], model=(m or "")[:1500], signature="C20:model-differs", found_input=False,
                           detail="generated values differ from the model's on the recorded draws (or the draws were not all consumed); "
                                  "every generated value still validates, is written and read back")
         return holds and t == m
@@ -861,7 +917,7 @@ def evaluate(ctx, entry, case, st, vals, rec, mismatch, m, corr="corr:gen"):
                       detail="generation did not finish within %d draws / 30 s" % MAX_DRAWS)
         return False
     # any other exception on a valid schema
-    ctx.violation(corr, cj, impl=st, model=m, signature="C20:gen_data:%s:%s" % (st.replace("raised:", "raised-"), feat), found_input=True,
+    ctx.violation(corr, cj, impl=st, model=m, signature="C20:gen_data:%s" % st.replace("raised:", "raised-"), found_input=True,
                   detail="generate raised on a valid schema; model: %s" % m)
     return False
 
